@@ -69,6 +69,11 @@ def ok_values(body):
             if rv["k"] == "use" and rv["op"].get("k") in ("copy", "move") and not rv["op"]["p"]:
                 visit(rv["op"]["l"])
                 continue
+            if rv["k"] == "through":
+                # the arm a written-out combinator passes on unchanged: a failure is no Ok value, a success is the receiver's
+                if rv.get("variant") in ("Ok", "Some") and rv["op"].get("k") in ("copy", "move") and not rv["op"]["p"]:
+                    visit(rv["op"]["l"])
+                continue
             opaque.append((blk, rv))
 
     visit(0)
